@@ -337,7 +337,7 @@ func (fr *faultRunner) try(kind, where string, data []byte) {
 	// the corrupted definition is acceptable: then it is a current-version definition and must round-trip
 	res.Count("fault.accepted", 1)
 	fr.plaus++
-	fr.ck.checkRoundTrip(fr.label+" "+kind+" "+where, out, flow)
+	fr.ck.checkRoundTrip(fr.label+" "+kind+" "+where, out, flow, false)
 }
 
 // runUnit runs every mutant of one unit
